@@ -65,6 +65,9 @@ class Fold:
             if cn in ("tuple", "list") and len(e.args) == 1:
                 v = self.ev(e.args[0])
                 return tuple(v) if isinstance(v, (tuple, list)) else UNK
+            if cn == "dict" and len(e.args) == 1 and not e.keywords:
+                v = self.ev(e.args[0])
+                return dict(v) if isinstance(v, dict) else UNK
             if cn == "len" and len(e.args) == 1:
                 v = self.ev(e.args[0])
                 return len(v) if isinstance(v, (tuple, list)) else UNK
@@ -87,6 +90,30 @@ class Fold:
                     return self.ev(e.args[1]) if len(e.args) == 2 else None
             key = norm(e)
             return self.env.get(key, UNK)
+        if isinstance(e, ast.DictComp) and len(e.generators) == 1 and \
+                not e.generators[0].ifs:
+            g = e.generators[0]
+            src = g.iter
+            items = None
+            if isinstance(src, ast.Call) and isinstance(
+                    src.func, ast.Attribute) and src.func.attr == "items":
+                d_ = self.ev(src.func.value)
+                if isinstance(d_, dict):
+                    items = list(d_.items())
+            if items is None or not (isinstance(g.target, ast.Tuple)
+                                     and len(g.target.elts) == 2 and all(
+                    isinstance(x, ast.Name) for x in g.target.elts)):
+                return UNK
+            out_d = {}
+            for kk, vv in items:
+                sub = Fold(self.env)
+                sub.env[g.target.elts[0].id] = kk
+                sub.env[g.target.elts[1].id] = vv
+                nk, nv = sub.ev(e.key), sub.ev(e.value)
+                if nk is UNK or nv is UNK:
+                    return UNK
+                out_d[nk] = nv
+            return out_d
         if isinstance(e, (ast.ListComp, ast.GeneratorExp)):
             if len(e.generators) != 1:
                 return UNK
@@ -576,6 +603,150 @@ def canon_exporter(prog: Program):
     return FuncInfo(fi.qual, fi.module, fn, fi.cls)
 
 
+def _helper_search_model(prog, fi, br, cls, k, imp_env):
+    """The label search moved into a helper outside the inventory:
+
+        label = helper(a_stereo, atom, nbrs, TABLE[, parity])
+        ...SetUnsignedProp("_chiralPermutation", label)
+
+    with `for label, order in table.items(): cand = (atom, *[nbrs[i] for i in
+    order]); if Cls(cand, parity) == a_stereo: return label` inside.  The
+    helper's loop is re-expressed at the call site (parameters replaced by
+    the arguments) and handed to the ordinary model."""
+    from .core import _Rename, clone, set_parents
+    for call in ast.walk(br):
+        if not (isinstance(call, ast.Call) and isinstance(
+                call.func, ast.Name)):
+            continue
+        h = prog.functions.get(f"{fi.module.name}:{call.func.id}")
+        if h is None or any(isinstance(a, ast.Starred) for a in call.args):
+            continue
+        loops = [n for n in h.node.body if isinstance(n, ast.For)]
+        if len(loops) != 1:
+            continue
+        loop = loops[0]
+        rets = [r for r in ast.walk(loop) if isinstance(r, ast.Return)
+                and r.value is not None]
+        if len(rets) != 1:
+            continue
+
+        def harmless(st):
+            # docstring, local bindings, `if len(..) <op> ..: return None`
+            # size guards (the pinned exporter has the same as `break`),
+            # the final `return None`
+            if isinstance(st, ast.Expr) and isinstance(st.value, ast.Constant):
+                return True
+            if isinstance(st, (ast.Assign, ast.AnnAssign)):
+                return all(isinstance(t, ast.Name) for t in (
+                    st.targets if isinstance(st, ast.Assign)
+                    else [st.target]))
+            if isinstance(st, ast.Return):
+                return st.value is None or (isinstance(
+                    st.value, ast.Constant) and st.value.value is None)
+            if isinstance(st, ast.If) and not st.orelse and \
+                    "len(" in norm(st.test) and all(
+                        harmless(x) and isinstance(x, ast.Return)
+                        for x in st.body):
+                return True
+            return False
+        if not all(harmless(st) for st in h.node.body if st is not loop):
+            continue
+        seen = [h.qual]
+        # bind parameters
+        a = h.node.args
+        params = [x.arg for x in a.posonlyargs + a.args]
+        binding = dict(zip(params, call.args))
+        for kw in call.keywords:
+            if kw.arg:
+                binding[kw.arg] = kw.value
+        defaults = dict(zip(reversed(params), reversed(a.defaults)))
+        for p_ in params:
+            if p_ not in binding and p_ in defaults:
+                binding[p_] = defaults[p_]
+        if any(p_ not in binding for p_ in params):
+            continue
+        desc_param = next((p_ for p_, v in binding.items()
+                           if norm(v) == "a_stereo"), None)
+        if desc_param is None:
+            continue
+        new_loop = _Rename(binding).visit(clone(loop))
+        # Cls of the descriptor: a_stereo.__class__(..) / type(a_stereo)(..)
+        class _K(ast.NodeTransformer):
+            def visit_Call(self, n):
+                self.generic_visit(n)
+                t = norm(n.func)
+                if t in ("a_stereo.__class__", "type(a_stereo)"):
+                    n.func = ast.Name(cls, ast.Load())
+                return n
+        new_loop = _K().visit(new_loop)
+        ret = [r for r in ast.walk(new_loop) if isinstance(r, ast.Return)][0]
+        setp = ast.Call(func=ast.Attribute(ast.Name("rd_atom", ast.Load()),
+                                           "SetUnsignedProp", ast.Load()),
+                        args=[ast.Constant("_chiralPermutation"), ret.value],
+                        keywords=[])
+        ast.copy_location(setp, call)
+        ast.copy_location(new_loop, call)
+        for n_ in ast.walk(new_loop):
+            if hasattr(n_, "lineno"):
+                n_.lineno = call.lineno
+        ast.fix_missing_locations(new_loop)
+        set_parents(new_loop)
+        cmp_ = [c for c in ast.walk(new_loop) if isinstance(c, ast.Compare)
+                and len(c.ops) == 1 and isinstance(c.ops[0], ast.Eq)
+                and "a_stereo" in norm(c)]
+        if not cmp_:
+            continue
+        c = cmp_[0]
+        side = c.left if "a_stereo" not in norm(c.left) else c.comparators[0]
+        raw = not (isinstance(side, ast.Call) and call_name(side) == cls)
+        f0 = Fold(imp_env)
+        f0.run(sorted([s_ for s_ in ast.walk(br) if isinstance(s_, ast.Assign)
+                       and isinstance(s_.value, (ast.Dict, ast.Attribute))],
+                      key=lambda s_: s_.lineno))
+        it = new_loop.iter
+
+        def table_value(e):
+            """value of the table expression; a call of a module level
+            function without arguments is evaluated through its body"""
+            if isinstance(e, ast.Call) and isinstance(e.func, ast.Name) and \
+                    not e.args and not e.keywords:
+                g = prog.functions.get(f"{fi.module.name}:{e.func.id}")
+                if g is not None:
+                    seen.append(g.qual)
+                    f1 = Fold(imp_env)
+                    body = [st for st in g.node.body
+                            if isinstance(st, (ast.Assign, ast.AnnAssign))]
+                    f1.run(body)
+                    rets_ = [st for st in g.node.body
+                             if isinstance(st, ast.Return)]
+                    if len(rets_) == 1 and rets_[0].value is not None:
+                        return f1.ev(rets_[0].value)
+                return UNK
+            return f0.ev(e)
+        rows = None
+        if isinstance(it, ast.Call) and isinstance(it.func, ast.Attribute) \
+                and it.func.attr == "items":
+            tab = table_value(it.func.value)
+            if isinstance(tab, dict):
+                rows = list(tab.items())
+        else:
+            v = table_value(it)
+            if isinstance(v, tuple):
+                rows = list(v)
+        if rows is None:
+            continue
+        result_names = set()
+        for a_ in ast.walk(br):
+            if isinstance(a_, ast.Assign) and a_.value is call:
+                result_names |= {t.id for t in a_.targets
+                                 if isinstance(t, ast.Name)}
+        return {"loop": new_loop, "rows": rows, "cmp": c, "side": side,
+                "raw": raw, "set": setp, "k": k, "branch": br,
+                "result_names": result_names, "helper_call": call,
+                "seen_through": seen}
+    return None
+
+
 def exporter_model(prog: Program) -> dict:
     fi = canon_exporter(prog)
     out: dict = {"_fi": fi}
@@ -651,6 +822,8 @@ def exporter_model(prog: Program) -> dict:
                 continue
             model = {"loop": loop, "rows": rows, "cmp": c, "side": side,
                      "raw": raw, "set": setp[0], "k": k, "branch": br}
+        if model is None:
+            model = _helper_search_model(prog, fi, br, cls, k, imp_env)
         if model is not None:
             # label assignments outside the table search (fast paths):
             # `if ... a_stereo == Cls(<atoms>, <parity>): Set(label)`
@@ -663,6 +836,12 @@ def exporter_model(prog: Program) -> dict:
                         and "_chiralPermutation" in norm(call.args[0])):
                     continue
                 if any(x is call for x in ast.walk(model["loop"])):
+                    continue
+                # the label computed by the search helper
+                if isinstance(call.args[1], ast.Name) and call.args[1].id in \
+                        model.get("result_names", ()):
+                    continue
+                if call.args[1] is model.get("helper_call"):
                     continue
                 cand = None
                 for a in ancestors(call):
